@@ -435,6 +435,104 @@ scenarios:
 	res.Eval(vkit.JSON(c), true)
 }
 
+// runTemplateErrorScenario: "a payload that does not fit yields a failed sample for that entry
+// and does not disturb other entries". Scenario s-bad has a payload template that parses but
+// fails while it is executed, after part of its text has been produced; s-good is plain. They
+// alternate on one instance: every s-good call must arrive exactly as written.
+func runTemplateErrorScenario(res *vkit.Result, instances int) {
+	c := Case{Kind: "scenario-template-error", Instances: instances, TimeoutMs: 3000, Shots: 12 * instances}
+	yaml := `variable_sources:
+  - type: "variables"
+    name: "v"
+    variables: {"word": "abc"}
+calls:
+  - name: "bad"
+    tag: "bad"
+    call: "target.TargetService.Hello"
+    payload: '{"name": "partial-{{index .source.v.word 7}}"}'
+    metadata: {"x-kind": "bad"}
+  - name: "badmeta"
+    tag: "badmeta"
+    call: "target.TargetService.Hello"
+    payload: '{"name": "never"}'
+    metadata: {"x-kind": "meta-{{index .source.v.word 9}}"}
+  - name: "good"
+    tag: "good"
+    call: "target.TargetService.Hello"
+    payload: '{"name": "fine-{{.source.v.word}}"}'
+    metadata: {"x-kind": "good-{{.source.v.word}}"}
+scenarios:
+  - name: "s-bad"
+    weight: 1
+    min_waiting_time: 0
+    requests: ["bad"]
+  - name: "s-good"
+    weight: 1
+    min_waiting_time: 0
+    requests: ["good"]
+  - name: "s-badmeta"
+    weight: 1
+    min_waiting_time: 0
+    requests: ["badmeta"]
+`
+	base := vkit.WriteMem(nil)
+	vkit.RemoveMem(base)
+	path := base + ".yaml"
+	_ = vkit.WriteMemAt(path, []byte(yaml))
+	defer vkit.RemoveMem(path)
+	tgt.ResetCalls()
+	ec, err := vkit.DecodePools(map[string]any{"pools": []any{map[string]any{
+		"id": "p", "ammo": map[string]any{"type": "grpc/scenario", "file": path, "limit": c.Shots}, "result": map[string]any{"type": "discard"},
+		"gun": gunConf(c, "grpc/scenario"), "rps": map[string]any{"type": "const", "ops": 300, "duration": "60s"},
+		"startup": map[string]any{"type": "once", "times": c.Instances},
+	}}})
+	if err != nil {
+		res.Violate("C20/scenario-template-error/rejected", fmt.Sprintf("pool config rejected: %v", err), c)
+		return
+	}
+	aggr := &vkit.MockAggregator{}
+	ec.Pools[0].Aggregator = aggr
+	rr := vkit.RunEngine(ec, nil, 60*time.Second)
+	if rr.Hang {
+		res.Inconclusive(false, "template-error scenario pool did not end within 60s")
+		return
+	}
+	if rr.Err != nil {
+		res.Violate("C20/scenario-template-error/run-error", fmt.Sprintf("run ended with %v", rr.Err), c)
+		return
+	}
+	good, other := 0, 0
+	for _, call := range tgt.Calls() {
+		name := markerOfName(call.Req)
+		kind := call.MD.Get("x-kind")
+		if name == "fine-abc" && len(kind) == 1 && kind[0] == "good-abc" {
+			good++
+		} else {
+			other++
+			res.Violate("C20/scenario-template-error/arrival", fmt.Sprintf("the server received a call that no entry describes: name %q, x-kind %v", name, kind), c)
+		}
+	}
+	okGood := 0
+	for _, s := range aggr.Snapshot() {
+		if strings.HasPrefix(s.Tags, "s-good.") && s.Proto == 200 {
+			okGood++
+		}
+	}
+	want := c.Shots / 3
+	if good != want || okGood != want {
+		res.Violate("C20/scenario-template-error/good-entry-disturbed", fmt.Sprintf("%d shots of the plain scenario between shots whose template fails while rendering: %d arrived as written, %d samples with code 200 (want %d each); %d other calls", want, good, okGood, want, other), c)
+	}
+	res.Count("calls_matched", int64(good))
+	res.Eval(vkit.JSON(c), true)
+}
+
+func markerOfName(m proto.Message) string {
+	if h, ok := m.(*server.HelloRequest); ok {
+		return h.Name
+	}
+	return ""
+}
+
 func main() {
 	vkit.Fs()
 	res := vkit.NewResult("grpc/json pools: 3–12 entries over Hello/Auth/List/Order of the example service with generated field combinations (unicode/quotes in strings, int64 as numbers within ±2^53 and as strings beyond), metadata maps, unknown methods / ill-typed payloads / unknown fields interleaved with good entries, shared-client on/off, 1–8 instances, configured timeout; grpc/scenario pools: two chained calls with payload and metadata templated from a csv row ([next]) and a value captured from the first response; distinct = distinct case descriptions; non-trivial = ≥ 2 entries or shots")
@@ -475,6 +573,8 @@ func main() {
 		}
 	}
 	runSlowScenario(res)
+	runTemplateErrorScenario(res, 1)
+	runTemplateErrorScenario(res, 3)
 	vkit.CheckRaceLog(res, "C20")
 	if res.Counter("calls_matched") < 100 || res.Counter("bad_entries") < 5 || res.Counter("scenario_pools") < 5 {
 		res.Inconclusive(true, "too few calls matched")
